@@ -298,3 +298,21 @@ def base_name(node):
     if isinstance(node, ast.Name):
         return node.id
     return None
+
+
+def clone(node):
+    """Deep copy of an AST (sub)tree WITHOUT following the framework's `_parent`
+    back-links (copy.deepcopy would drag the whole module along through them).
+    The copy has no `_parent` links; line numbers are kept."""
+    if isinstance(node, list):
+        return [clone(x) for x in node]
+    if not isinstance(node, ast.AST):
+        return node
+    new = type(node)()
+    for f in node._fields:
+        if hasattr(node, f):
+            setattr(new, f, clone(getattr(node, f)))
+    for a in ("lineno", "col_offset", "end_lineno", "end_col_offset"):
+        if hasattr(node, a):
+            setattr(new, a, getattr(node, a))
+    return new
